@@ -297,9 +297,12 @@ func (p *DB) Put(key []byte, value []byte) error {
 		p.kvData = append(p.kvData, key...)
 		p.kvData = append(p.kvData, value...)
 		p.nodeData[node] = kvOffset
-		m := p.nodeData[node+nVal]
+		// The comparer may call keys of different lengths equal, the node
+		// has to describe the key that has just been appended.
+		m := p.nodeData[node+nKey] + p.nodeData[node+nVal]
+		p.nodeData[node+nKey] = len(key)
 		p.nodeData[node+nVal] = len(value)
-		p.kvSize += len(value) - m
+		p.kvSize += len(key) + len(value) - m
 		return nil
 	}
 
